@@ -340,6 +340,30 @@ func execDate(f []string) string {
 			return "ok " + dDTS(p)
 		}
 		return "bad-op"
+	case "zoff": // colon(0|1) offsetSeconds: `%z` / `%:z` of a datetime in a fixed-offset zone, parsed back with the same format
+		n, ok := dInts(a)
+		if !ok || len(n) != 2 {
+			return "bad-op"
+		}
+		zone, zerr := value.NewTimezoneFromOffsetErr(value.TimeSpan(n[1]) * value.Second)
+		if !zerr.IsUndefined() {
+			return "ok zone-" + dErr(zerr)
+		}
+		f := "%z"
+		if n[0] == 1 {
+			f = "%:z"
+		}
+		t := value.NewDateTime(2000, 1, 1, 12, 0, 0, 0, 0, 0, zone)
+		s, err := t.Format(f)
+		if !err.IsUndefined() {
+			return dErr(err)
+		}
+		p, err := value.ParseDateTime(f, s)
+		if !err.IsUndefined() {
+			return "ok " + dHexOut(s) + " | err"
+		}
+		_, o2 := p.ToGoTime().Zone()
+		return fmt.Sprintf("ok %s | %d", dHexOut(s), o2)
 	case "dtz": // Y M D h m s ns offsetSeconds hexfmt: wall clock in a fixed-offset zone -> format -> parse with the same format
 		if len(a) != 9 {
 			return "bad-op"
